@@ -1409,3 +1409,152 @@ def judge_report(res, rep, trees, rules, data):
 
 
 register("C09", ["Guard.Properties.C09"], run_C09, needs_cli=True)
+
+
+# =============================================================================== C17
+
+def statuses_from_structured(stdout):
+    """[(data name, {rule: status})] from `validate --structured -o json`"""
+    arr = json.loads(stdout)
+    out = []
+    for rep in arr:
+        st = {}
+        for n_ in rep["compliant"]:
+            st[base_rule_name(n_)] = "PASS"
+        for n_ in rep["not_applicable"]:
+            st[base_rule_name(n_)] = "SKIP"
+        for c in rep["not_compliant"]:
+            if "Rule" in c:
+                st[base_rule_name(c["Rule"]["name"])] = "FAIL"
+        out.append((rep["name"], st, rep["status"]))
+    return out
+
+
+def run_C17(ctx):
+    res = Result("random rule files that read both data and parameter keys x documents whose top-level keys are split at "
+                 "random into 1..3 input-parameter files + the data file (disjoint and deliberately overlapping), plain and "
+                 "structured mode, real binary; compared with validating the single pre-merged document, with every order of "
+                 "the parameter files, and with the Lean merge+evaluator model; non-trivial = distinct split that evaluated")
+    n = 2500 if ctx.thorough() else 220
+    rng = random.Random(ctx.seed)
+    jobs, meta = [], []
+    for i in range(n):
+        g = gen.G(ctx.seed * 1100009 + i, core=True)
+        doc = g.doc(depth=3)
+        while len(doc) < 3:
+            doc[g.ch(gen.KEYS)] = g.value(2)
+        rules = g.rules_file(doc, depth=2, cfn=False)
+        keys = list(doc.keys())
+        rng.shuffle(keys)
+        k = rng.choice([1, 2, 3])
+        cuts = sorted(rng.sample(range(1, len(keys)), min(k, len(keys) - 1))) if len(keys) > 1 else []
+        groups = [keys[a:b] for a, b in zip([0] + cuts, cuts + [len(keys)])]
+        data_keys, param_groups = groups[-1], groups[:-1]
+        overlap = rng.random() < 0.2 and param_groups
+        params = [{kk: doc[kk] for kk in grp} for grp in param_groups]
+        data = {kk: doc[kk] for kk in data_keys}
+        if overlap:
+            dup = rng.choice(list(data.keys()) + [kk for p in params[1:] for kk in p] or list(data.keys()))
+            params[0][dup] = 1
+        merged = {}
+        for pdoc in params:
+            merged.update(pdoc)
+        merged.update(data)
+        structured = rng.random() < 0.5
+        flags = ["--structured", "-o", "json", "-S", "none"] if structured else ["-S", "all"]
+        files = {"r.guard": rules, "d.json": json.dumps(data), "m.json": json.dumps(merged)}
+        iargs = []
+        for j, pdoc in enumerate(params):
+            files["p%d.json" % j] = json.dumps(pdoc)
+            iargs += ["-i", "{DIR}/p%d.json" % j]
+        base = len(jobs)
+        jobs.append({"argv": ["validate", "-r", "{DIR}/r.guard", "-d", "{DIR}/d.json"] + iargs + flags, "files": files})
+        jobs.append({"argv": ["validate", "-r", "{DIR}/r.guard", "-d", "{DIR}/m.json"] + flags, "files": files})
+        perm_idx = []
+        if len(params) > 1:
+            for pm in list(itertools.permutations(range(len(params))))[1:3]:
+                ia = []
+                for j in pm:
+                    ia += ["-i", "{DIR}/p%d.json" % j]
+                perm_idx.append(len(jobs))
+                jobs.append({"argv": ["validate", "-r", "{DIR}/r.guard", "-d", "{DIR}/d.json"] + ia + flags, "files": files})
+        meta.append({"base": base, "perms": perm_idx, "overlap": bool(overlap), "structured": structured, "rules": rules,
+                     "params": params, "data": data, "merged": merged})
+    outs = vlib.run_cli_many(jobs)
+    # model: merge + evaluate
+    creqs = [{"id": i, "op": "case", "rules": m["rules"], "data": json.dumps(m["data"]), "loader": "libyaml", "verbose": False} for i, m in enumerate(meta)]
+    cresp = ctx.hp.map(creqs)
+    preqs, pown = [], []
+    for i, m in enumerate(meta):
+        for j, pdoc in enumerate(m["params"]):
+            preqs.append({"id": len(preqs), "op": "data", "data": json.dumps(pdoc), "loader": "libyaml"})
+            pown.append((i, j))
+    presp = ctx.hp.map(preqs)
+    pdocs = {}
+    for (i, j), r in zip(pown, presp):
+        pdocs[(i, j)] = r.get("ok")
+    mreqs, midx = [], []
+    for i, m in enumerate(meta):
+        r = cresp[i]
+        if r.get("ast", {}).get("ok") is None or "ok" not in r.get("doc", {}):
+            continue
+        ps = [pdocs.get((i, j)) for j in range(len(m["params"]))]
+        if any(p is None for p in ps):
+            continue
+        env = vlib.env_request(r["ast"]["ok"], [r["doc"]["ok"]] + ps)
+        mreqs.append((i, env, r, ps))
+    envs = ctx.hp.map([dict(e, id=k) for k, (_, e, _, _) in enumerate(mreqs)])
+    mresp = ctx.mp.map([{"id": i, "op": "merge_eval", "ast": r["ast"]["ok"], "doc": r["doc"]["ok"], "params": ps,
+                         "env": {k: v for k, v in e.items() if k != "id"}} for (i, _, r, ps), e in zip(mreqs, envs)])
+    model = {i: mr for (i, _, _, _), mr in zip(mreqs, mresp)}
+
+    def verdict(o, structured):
+        if o["code"] not in (0, 19):
+            return ("exit", o["code"])
+        if structured:
+            try:
+                s = statuses_from_structured(o["stdout"])
+                return ("ok", o["code"], s[0][1], s[0][2])
+            except Exception:
+                return ("unparsable-output", o["code"])
+        st = {}
+        import re as _re
+        for mm in _re.finditer(r"^\S+?/(\S+)\s+(PASS|FAIL|SKIP)$", o["stdout"], _re.M):
+            st[mm.group(1)] = mm.group(2)
+        return ("ok", o["code"], st, None)
+
+    for i, m in enumerate(meta):
+        res.evaluations += 1
+        a = verdict(outs[m["base"]], m["structured"])
+        b = verdict(outs[m["base"] + 1], m["structured"])
+        res.stats["c17:" + ("overlap" if m["overlap"] else "disjoint") + ":" + str(a[0])] += 1
+        info = {"rules": m["rules"], "params": m["params"], "data": m["data"], "structured": m["structured"]}
+        if m["overlap"]:
+            o = outs[m["base"]]
+            if o["code"] in (0, 19):
+                res.judge_failures.append(dict(info, what="two sources define the same top-level key but the run did not fail (exit %s)" % o["code"], **{"class": "c17-silent-override"}))
+            elif o["code"] == 255 and "already exists" not in (o["stderr"] + o["stdout"]) and "arser" not in o["stderr"]:
+                res.judge_failures.append(dict(info, what="key conflict must be reported as an error naming the key: exit %s, stderr %r" % (o["code"], o["stderr"][:200]), **{"class": "c17-conflict-report"}))
+            continue
+        res.nontrivial.add(i)
+        if a != b:
+            res.judge_failures.append(dict(info, what="validating D with parameter files differs from validating the pre-merged document: %s vs %s" % (a[:3], b[:3]), **{"class": "c17-merge"}))
+        for k in m["perms"]:
+            c = verdict(outs[k], m["structured"])
+            if c != a:
+                res.judge_failures.append(dict(info, what="the order of the parameter files changes the result: %s vs %s" % (a[:3], c[:3]), argv=jobs[k]["argv"], **{"class": "c17-order"}))
+        mr = model.get(i)
+        if mr is not None and a[0] == "ok":
+            mst = {base_rule_name(n_): s for n_, s in mr.get("rules", [])} if "rules" in mr else None
+            # several same-named rules: the report keeps one status per name; compare sets of (name,status)
+            if mst is None or any(a[2].get(k_) != v_ for k_, v_ in mst.items() if list(n for n, _ in mr["rules"]).count(k_) == 1):
+                res.disagreements.append({"what": "merge+evaluate: model %s vs binary %s" % (mr, a[:3]), "rules": m["rules"], "params": m["params"], "data": m["data"]})
+        elif mr is not None and a[0] == "exit" and "rules" in mr and a[1] == 255:
+            res.disagreements.append({"what": "binary errored (exit 255) where the model evaluates: %s" % mr, "rules": m["rules"], "params": m["params"], "data": m["data"],
+                                      "stderr": outs[m["base"]]["stderr"][:300]})
+        if i < 2:
+            res.add_sample({"params": m["params"], "data": m["data"], "verdict": a[:3]})
+    return res
+
+
+register("C17", ["Guard.Properties.C17"], run_C17, needs_cli=True)
